@@ -70,9 +70,11 @@ def run(ctx):
         if ok2:
             ctx.notes.append("%s: no longer reproduces (strict invariants hold on the kept replay)" % fid)
         elif any(e in viol for e in expect):
-            # TODO-KNOWN-FINDING: reported as pending instead of VIOLATION until the coordinator decides
+            # TODO-KNOWN-FINDING: KNOWN-FINDING once known_findings.json lists the id as open; until the
+            # coordinator decides it is reported as pending instead of VIOLATION
             line = "PENDING-FINDING property=C38 %s reproduced on the real code (%s): %s" % (fid, viol.strip()[:80], what)
-            print(line)
+            if not ctx.known_finding(fid, what):
+                print(line)
             ctx.notes.append(line)
         else:
             ctx.reject_trace("chain/ChainTrace", fp, c2, r2, cfg="chain/ChainTraceStrict",
